@@ -318,6 +318,7 @@ def writeset(cx, fn, var, loop, chan_var, law_names, guard_test=None, scalar_pat
     the value stored in the column is law(var[:, chan_var]); range store is [law(R[0]), law(R[1])]."""
     data = fn.params[0]
     n_col = n_rng = 0
+    col_sts, rng_sts = [], []
     for st, tgt in subscript_stores(fn):
         root = root_name(tgt)
         if root != var:
@@ -336,6 +337,7 @@ def writeset(cx, fn, var, loop, chan_var, law_names, guard_test=None, scalar_pat
             ok = inside and got in want
             fn.ob('WRITESET', 'events of the loop channel are replaced by the law applied to that same column', ok, st,
                   detail='' if ok else 'column store `%s`' % norm_stmt(st), key='col-store')
+            col_sts.append(st)
         elif tnf == rng:
             n_rng += 1
             want = [sym.norm('[%s(%s._range[%s][0]), %s(%s._range[%s][1])]' % (l, var, chan_var, l, var, chan_var))
@@ -344,11 +346,29 @@ def writeset(cx, fn, var, loop, chan_var, law_names, guard_test=None, scalar_pat
             ok = inside and got in want
             fn.ob('SAMELAW', 'range limits of the loop channel go through the same law as its events', ok, st,
                   detail='' if ok else 'range store `%s`' % norm_stmt(st), key='range-store')
+            rng_sts.append(st)
             if ok and scalar_path:
                 scalar_path_obligations(fn, st, law_names)
         else:
             fn.ob('WRITESET', 'stores address only the loop channel (events column or its range entry)', False, st,
                   detail='store target `%s`' % norm_stmt(tgt), key='other-store')
+    # BOTH: in every iteration that converts the events, the limits are converted too - except when the
+    # object carries no range, or no range for that channel
+    from ..rules import run_context, _abstract
+    run_context(fn, fn.ast.body[0], None, resolved=False)          # computes the set of local names
+    allowed = {'when ' + sym.show(_abstract(sym.norm("hasattr(%s, '_range')" % var), {}, fn._local_names)),
+               'when ' + sym.show(_abstract(sym.norm('%s._range[%s] is not None' % (var, chan_var)), {}, fn._local_names))}
+    for c_st in col_sts:
+        cc = set(run_context(fn, c_st, None, resolved=False) or [])
+        for r_st in rng_sts:
+            rc = set(run_context(fn, r_st, None, resolved=False) or [])
+            extra = sorted((rc - cc) - allowed)
+            lost = sorted(cc - rc)
+            ok = not extra and not lost and allowed <= rc
+            fn.ob('SAMELAW', 'whenever the events of a channel are converted its limits are converted too (unless it has no range)', ok, r_st,
+                  detail='' if ok else 'the range update %s' % (('additionally runs only ' + ' & '.join(extra)) if extra else
+                                                              ('does not share the conditions of the event update: ' + ' & '.join(lost + sorted(allowed - rc)))),
+                  key='both')
     return n_col, n_rng
 
 
